@@ -437,6 +437,9 @@ func (blockchain *Blockchain) verifyBlock(neighborBlock *ledger.Block, previousB
 		expectedDate := time.Unix(0, expectedBlockTimestamp)
 		return fmt.Errorf("neighbor block timestamp is invalid: block date is %v, expected is %v", blockDate, expectedDate)
 	}
+	if currentBlockTimestamp == 0 {
+		return errors.New("neighbor block timestamp is zero, which denotes an empty blockchain")
+	}
 	if currentBlockTimestamp > timestamp {
 		blockDate := time.Unix(0, currentBlockTimestamp)
 		nowDate := time.Unix(0, timestamp)
